@@ -29,6 +29,10 @@ structure FSt where
   /-- number of records (numrecs) -/
   nrecs : Nat := 0
   attached : Bool := false
+  /-- the harness still holds put buffers of this file (released and compared at close / abort / wait_all / cancel all) -/
+  heldput : Bool := false
+  /-- kind of the last MREQ request not yet ended by id: 0 none, 1 iget, 2 iput, 3 bput -/
+  lastm : Nat := 0
   /-- bytes of the attached buffer in use -/
   abufUsed : Nat := 0
 
@@ -63,8 +67,18 @@ def callFn (kind : String) : Option (FSt → FSt × Int) :=
   | "ATTACH" => some (fun p => if p.attached then (p, -216) else ({ p with attached := true, abufUsed := 0 }, 0))
   | "DETACH" => some (fun p => if ¬ p.attached then (p, -217) else if p.pbput > 0 then (p, -218)
                               else ({ p with attached := false }, 0))
+  | "CANCELGET" => some (fun p => ({ p with pget := 0, lastm := if p.lastm = 1 then 0 else p.lastm }, 0))
+  | "CANCELPUT" => some (fun p => ({ p with pput := 0, pbput := 0, precput := 0, abufUsed := 0,
+                                            lastm := if p.lastm = 1 then 1 else 0 }, 0))
+  | "CANCELALL" => some (fun p => ({ p with pget := 0, pput := 0, pbput := 0, precput := 0, abufUsed := 0, lastm := 0,
+                                            heldput := false }, 0))
+  | "WAITID" | "CANCELID" => some (fun p =>
+      if p.lastm = 1 then ({ p with pget := p.pget - 1, lastm := 0 }, 0)
+      else if p.lastm = 2 then ({ p with pput := p.pput - 1, lastm := 0 }, 0)
+      else if p.lastm = 3 then ({ p with pput := p.pput - 1, pbput := p.pbput - 1, lastm := 0 }, 0)
+      else (p, 0))
   | "WAITALL" => some (fun p => if p.indef then (p, -39)
-                               else ({ p with pget := 0, pput := 0, pbput := 0, precput := 0, abufUsed := 0,
+                               else ({ p with pget := 0, pput := 0, pbput := 0, precput := 0, abufUsed := 0, lastm := 0, heldput := false,
                                               nrecs := if p.precput > 0 then max p.nrecs 1 else p.nrecs }, 0))
   | _ => none
 
@@ -98,9 +112,21 @@ def iopFn (kind var : String) : FSt → FSt × Int := fun p =>
   else if kind == "BPUT" then
     (if ¬ p.attached then (p, -217)
      else if 65536 - p.abufUsed < nbytes then (p, -219)
-     else ({ p with pput := p.pput + 1, pbput := p.pbput + 1, abufUsed := p.abufUsed + nbytes,
+     else ({ p with pput := p.pput + 1, pbput := p.pbput + 1, abufUsed := p.abufUsed + nbytes, heldput := true,
                     precput := if isRec then p.precput + 1 else p.precput }, 0))
-  else ({ p with pput := p.pput + 1, precput := if isRec then p.precput + 1 else p.precput }, 0)
+  else ({ p with pput := p.pput + 1, heldput := true, precput := if isRec then p.precput + 1 else p.precput }, 0)
+
+/-- MREQ id kind: varm + transposed imap + derived buftype, 4 elements of m2 -/
+def mreqFn (kind : String) : FSt → FSt × Int := fun p =>
+  if ¬ p.io then (p, -49)
+  else if kind != "IGET" ∧ p.rdonly then (p, -37)
+  else if p.indef then (p, -39)
+  else if kind == "IGET" then ({ p with pget := p.pget + 1, lastm := 1 }, 0)
+  else if kind == "BPUT" then
+    (if ¬ p.attached then (p, -217)
+     else if 65536 - p.abufUsed < 16 then (p, -219)
+     else ({ p with pput := p.pput + 1, pbput := p.pbput + 1, abufUsed := p.abufUsed + 16, heldput := true, lastm := 3 }, 0))
+  else ({ p with pput := p.pput + 1, heldput := true, lastm := 2 }, 0)
 
 def doCreate (w : W) (p : FSt) (derr : Int) : W × String :=
   let (t, o, id) := step w.nullCheck w.tab (.create p derr)
@@ -119,7 +145,7 @@ def doCall (w : W) (id : Int) (kind : String) (probe : Bool) : W × String :=
                else if p.fresh then { w with exist := w.exist.set p.k false }
                else if ¬ p.indef then { w with store := w.store.set p.k (p.ndims, p.nvars, p.natts, p.nrecs, p.io) }
                else w
-      (w, outStr o ++ (if p.pput > 0 then " bufs=ok" else ""))
+      (w, outStr o ++ (if p.heldput then " bufs=ok" else ""))
     | _ =>
       let (_, o, _) := step w.nullCheck w.tab (.close id f)
       (w, outStr o)
@@ -134,7 +160,8 @@ def doCall (w : W) (id : Int) (kind : String) (probe : Bool) : W × String :=
         let w := { w with tab := t }
         let w := if kind == "ENDDEF" ∧ (f p).2 = 0 then { w with store := w.store.set p.k (p'.ndims, p'.nvars, p'.natts, p'.nrecs, p'.io) } else w
         (w, outStr o ++ (if (f p).2 = 0 then callVal kind p' else badVal kind) ++
-            (if kind == "WAITALL" ∧ (f p).2 = 0 ∧ p.pput > 0 then " bufs=ok" else ""))
+            (if (kind == "WAITID" ∨ kind == "CANCELID") ∧ (f p).2 = 0 then " 0" else "") ++
+            (if (kind == "WAITALL" ∨ kind == "CANCELALL") ∧ (f p).2 = 0 ∧ p.heldput then " bufs=ok" else ""))
       | _ =>
         let (_, o, _) := step w.nullCheck w.tab (.call id f)
         (w, match o with | .crash => "SIG11" | .ret e => toString e ++ badVal kind)
@@ -186,6 +213,13 @@ def stepLine (w : W) (line : String) : W × String :=
     match checkId w.nullCheck w.tab (int! id) with
     | .ok _ =>
       let (t, o, _) := step w.nullCheck w.tab (.call (int! id) (iopFn kind var))
+      ({ w with tab := t }, outStr o)
+    | .badid => (w, "-33")
+    | .null => (w, "SIG11")
+  | ["MREQ", id, kind] =>
+    match checkId w.nullCheck w.tab (int! id) with
+    | .ok _ =>
+      let (t, o, _) := step w.nullCheck w.tab (.call (int! id) (mreqFn kind))
       ({ w with tab := t }, outStr o)
     | .badid => (w, "-33")
     | .null => (w, "SIG11")
